@@ -10,6 +10,7 @@ import PrefVerif.Driver.C19
 import PrefVerif.Driver.ILP
 import PrefVerif.Driver.ELO
 import PrefVerif.Driver.KAlt
+import PrefVerif.Driver.Euclid2
 open Lean PrefVerif.Driver
 
 def handlers : List (String × Handler) := [
@@ -38,7 +39,8 @@ def handlers : List (String × Handler) := [
   ("elo.sp", ELO.elo),
   ("kalt.deletion", KAltD.deletion),
   ("kalt.partition", KAltD.partition),
-  ("kalt.sets", KAltD.sets)
+  ("kalt.sets", KAltD.sets),
+  ("euc.lp", Euclid2.lp)
 ]
 
 def dispatch (j : Json) : Json :=
